@@ -179,7 +179,9 @@ func checkC03() *checkDef {
 					pp = append(pp, psched{Name: "policy-switched-in-flight/" + start + "/" + be, Backend: be, Clients: 1, Start: start, Outcome: "cacheable", Policy: "force-1s", Prop: "C03"})
 				}
 			}
-			return append(freshRuns(tier), run{Pkg: "./proxy", Scenario: "proxy/sched", Params: pp, K: 2, E: 1, F: 1, Horizon: 8000})
+			// ranges cut from a fresh stored entry are served "this way" too and carry the HIT label
+			rr := run{Pkg: "./proxy", Scenario: "proxy/range", Params: map[string]any{"backend": "memory"}}
+			return append(freshRuns(tier), run{Pkg: "./proxy", Scenario: "proxy/sched", Params: pp, K: 2, E: 1, F: 1, Horizon: 8000}, rr)
 		},
 	}
 }
